@@ -119,6 +119,7 @@ inductive Res where
   | ok (line : Bytes) (idx : Nat)   -- comment, 1-based index of the entry
   | refused                         -- ptt.ErrNotPermitted of the refusal test
   | params                          -- ErrInvalidParams: the board has no entries
+  | badText                         -- ErrInvalidParams: the text contains a line break (since b012a03)
   | badName                         -- strconv error from Filename_t.CreateTime
   | notFound                        -- cmsys.ErrRecordNotFound
   | noFile                          -- open(article) fails
@@ -187,6 +188,9 @@ def refusedBy (cfg : Cfg) (_q : Req) (r : Bytes) : Bool :=
   let fm := r.getD offFilemode 0
   hasBit cfg.attr BRD_NORECOMMEND || r.getD offFilename 0 == 76 || (hasBit fm FILE_MARKED && hasBit fm FILE_SOLVED)
 
+/-- `bytes.ContainsAny(content, "\n\r")`. -/
+def hasLineBreak (text : Bytes) : Bool := text.any (fun b => b == 10 || b == 13)
+
 def recommend (find : Bytes → Nat → Bytes → Option Nat) (cfg : Cfg) (st : St) (q : Req) : St × Res :=
   let total := st.dir.bytes.length / dirSz          -- Shm total, set from the .DIR size by SetBTotal
   if total = 0 then (st, .params)
@@ -194,6 +198,7 @@ def recommend (find : Bytes → Nat → Bytes → Option Nat) (cfg : Cfg) (st : 
     | .error e => (st, e)
     | .ok (idx, r) =>
       if refusedBy cfg q r then (st, .refused)
+      else if hasLineBreak q.text then (st, .badText)
       else doAddRecommend st idx r (formatComment cfg q) q.ctype q.mtime
 
 /-- a history of requests on one board (the configuration may change between requests). -/
